@@ -633,11 +633,27 @@ pub fn run(tier: Tier) -> i32 {
             let (case, _) = crate::gen::make_case(&l, &cfg, &mut sp, &crate::gen::Overrides::default(), 0);
             big.push(case);
         }
+        // what each of them gives "alone": right after a large body of another length, so that nothing remembered about
+        // the previous body (its address, its length) can be mistaken for this one
+        let spacer = {
+            let mut sp_case = big[0].clone();
+            sp_case.wire.body.push(b'x');
+            sp_case
+        };
+        let alone: Vec<String> = big
+            .iter()
+            .map(|c| {
+                let _ = execute(&spacer);
+                digest_of(c)
+            })
+            .collect();
         // … and through one and the same buffer: the body handed back by the previous validation is overwritten in place
         // with the next request's body and handed in again
         for j in 1..m {
+            let _ = execute(&spacer);
             if let Some(o) = crate::exec::execute_second_in_the_same_buffer(&big[j - 1], &big[j]) {
                 t.eval();
+                let _ = execute(&spacer);
                 let alone = execute(&big[j]).outcome.digest();
                 if o.digest() != alone {
                     viol(&mut t, "reused-buffer", format!("a {}-byte body written into the buffer the previous validation handed back: {} — in a buffer of its own: {}", len, crate::run::truncate(&o.digest(), 200), crate::run::truncate(&alone, 200)), Some(&big[j]));
@@ -651,8 +667,8 @@ pub fn run(tier: Tier) -> i32 {
         backward.reverse();
         for j in 0..m {
             t.eval();
-            if forward[j] != backward[j] {
-                viol(&mut t, "large-body-sequence", format!("a {}-byte body validated after another body of the same length: {} — after a different predecessor: {}", len, crate::run::truncate(&forward[j], 200), crate::run::truncate(&backward[j], 200)), Some(&big[j]));
+            if forward[j] != backward[j] || forward[j] != alone[j] {
+                viol(&mut t, "large-body-sequence", format!("a {}-byte body validated after another body of the same length: {} — after a different predecessor: {} — after a body of another length: {}", len, crate::run::truncate(&forward[j], 200), crate::run::truncate(&backward[j], 200), crate::run::truncate(&alone[j], 200)), Some(&big[j]));
                 break;
             }
             if forward[j].starts_with("OK") {
